@@ -73,7 +73,21 @@ def stepC04 (c : PCase) (st : C04State) (op : List String) (r : PR) : C04State :
     fail good n { st with h := { h with finishAttempted := true } }
   | _ => { st with ok := false, note := "bad op" }
 
+/-- what `build` must answer for this case: with an explicit builder call sequence from its declarative
+    reading (`Spec.buildAccepts`: video configured by some call, no Opus track above 255 channels) -/
+def expectedBuild (c : PCase) : String :=
+  let missing := match c.bops with | some b => (Spec.lastSome Spec.videoOf b).isNone | none => c.novideo
+  let accepts := match c.bops with
+    | some b => Spec.buildAccepts b
+    | none => !c.novideo && (match c.cfg.audio with | some a => !(a.codec == .opus && a.channels > 255) | none => true)
+  if missing then "builderr:MissingVideoConfig:-" else if !accepts then "builderr:Io:-" else "built"
+
 def oracleC04 (c : PCase) (o : PObs) : Bool × String :=
+  let buildReply : String := match o.replies with
+    | [(PR.other s, _)] => if s.startsWith "builderr" then s else "built"
+    | _ => "built"
+  if buildReply != expectedBuild c then (false, s!"build: {buildReply}, the call sequence asks for {expectedBuild c}") else
+  if buildReply != "built" then (true, "") else
   let st0 : C04State := { h := { codec := specCodec c.cfg.codec, audio := specAudio c, width := c.cfg.width, height := c.cfg.height } }
   let st := (List.zip c.ops o.replies).foldl (fun st (op, r) => stepC04 c st op r.1) st0
   (st.ok && o.replies.length == c.ops.length || (st.ok && (o.replies.getLast?.map (·.1)) != some PR.panic &&
